@@ -70,7 +70,7 @@ pub enum Act {
     Nop,
     Layout { fallible: bool, size: usize, al: u8 },
     Typed { m: TM, ty: Ty },
-    TryWith { fallible: bool, ty: Ty, ok: bool, inner: Inner, probe: bool },
+    TryWith { fallible: bool, ty: Ty, ok: bool, inner: Inner, probe: bool, esz: u8 },
     Slice { m: SM, el: El, len: usize, fail_at: u8, inner: Inner },
     Str { fallible: bool, len: usize },
     Allocate { size: usize, al: u8 },
@@ -953,8 +953,45 @@ impl<const M: usize> World<M> {
 // alloc_try_with / try_alloc_try_with (C11)
 // ------------------------------------------------------------------------------------------
 
+/// Error types of different sizes around the drop-tracked token (C11 quantifies over error sizes: a
+/// big error next to a small value makes the reserved `Result<T, E>` slot much larger than the value).
+pub trait ErrLike: Sized {
+    fn mk(id: u32) -> Self;
+    fn tok(self) -> ErrTok;
+}
+impl ErrLike for ErrTok {
+    fn mk(id: u32) -> Self {
+        make_err(id)
+    }
+    fn tok(self) -> ErrTok {
+        self
+    }
+}
+pub struct BigErr<const N: usize> {
+    tok: ErrTok,
+    _pad: [u8; N],
+}
+impl<const N: usize> ErrLike for BigErr<N> {
+    fn mk(id: u32) -> Self {
+        BigErr { tok: make_err(id), _pad: [0xE7; N] }
+    }
+    fn tok(self) -> ErrTok {
+        self.tok
+    }
+}
+macro_rules! with_err {
+    ($e:expr, $E:ident => $body:expr) => {
+        match $e {
+            0 => { type $E = ErrTok; $body }
+            1 => { type $E = BigErr<300>; $body }
+            2 => { type $E = BigErr<600>; $body }
+            _ => { type $E = BigErr<5000>; $body }
+        }
+    };
+}
+
 impl<const M: usize> World<M> {
-    pub fn do_try_with(&mut self, fallible: bool, ty: Ty, ok: bool, inner: Inner, probe: bool, script: &[Answer]) {
+    pub fn do_try_with(&mut self, fallible: bool, ty: Ty, ok: bool, inner: Inner, probe: bool, esz: u8, script: &[Answer]) {
         let what: &'static str = if fallible { "try_alloc_try_with" } else { "alloc_try_with" };
         let (pre, pl) = self.pre();
         let tag = self.next_tag + 1000;
@@ -975,16 +1012,24 @@ impl<const M: usize> World<M> {
         let mut kept: Option<(usize, usize)> = None;
         let mut slot_layout = Layout::new::<()>();
         let mut val_layout = Layout::new::<()>();
+        let mut val_off = 0usize;
         let r = {
             let kept_ref = &mut kept;
             let sl = &mut slot_layout;
             let vl = &mut val_layout;
+            let vo = &mut val_off;
             arena_op(envp, self.step, self.arena, script, || {
-                with_ty!(ty, T => {
-                    *sl = Layout::new::<Result<T, ErrTok>>();
+                with_ty!(ty, T => { with_err!(esz, E => {
+                    *sl = Layout::new::<Result<T, E>>();
                     *vl = Layout::new::<T>();
+                    {
+                        // where the T sits inside its Result<T, E> slot
+                        let probe: std::mem::MaybeUninit<Result<T, E>> = std::mem::MaybeUninit::new(Ok(make::<T>(0, 0, 0)));
+                        let pr = unsafe { &*probe.as_ptr() };
+                        *vo = match pr { Ok(t) => (t as *const T as usize) - (pr as *const Result<T, E> as usize), Err(_) => 0 };
+                    }
                     let bref = &b;
-                    let init = || -> Result<T, ErrTok> {
+                    let init = || -> Result<T, E> {
                         let _g = Callback::enter();
                         log_push(4, 0);
                         match inner {
@@ -1010,21 +1055,21 @@ impl<const M: usize> World<M> {
                                 }
                             }
                         }
-                        if ok { Ok(make::<T>(tag, step, 0)) } else { Err(make_err(err_id)) }
+                        if ok { Ok(make::<T>(tag, step, 0)) } else { Err(E::mk(err_id)) }
                     };
                     if fallible {
                         match b.try_alloc_try_with(init) {
                             Ok(r) => R::Ok(r as *mut T as usize),
-                            Err(bumpalo::AllocOrInitError::Init(e)) => R::InitErr(e),
+                            Err(bumpalo::AllocOrInitError::Init(e)) => R::InitErr(e.tok()),
                             Err(bumpalo::AllocOrInitError::Alloc(_)) => R::AllocErr,
                         }
                     } else {
                         match b.alloc_try_with(init) {
                             Ok(r) => R::Ok(r as *mut T as usize),
-                            Err(e) => R::InitErr(e),
+                            Err(e) => R::InitErr(e.tok()),
                         }
                     }
-                })
+                }) })
             })
         };
         self.bump = Some(b);
@@ -1066,12 +1111,7 @@ impl<const M: usize> World<M> {
                 let exp = move |j: usize| pat(tag, step, j);
                 // the reference points at the T inside the reserved Result<T, E> slot: the slot
                 // must honour MIN_ALIGN; the T itself is judged separately (distinct key)
-                let off = with_ty!(ty, T => {
-                    let probe: Result<T, ErrTok> = Ok(make::<T>(0, 0, 0));
-                    let o = match &probe { Ok(t) => (t as *const T as usize) - (&probe as *const Result<T, ErrTok> as usize), Err(_) => 0 };
-                    std::mem::forget(probe);
-                    o
-                });
+                let off = val_off;
                 let slot = a.wrapping_sub(off);
                 if slot % M != 0 || slot % slot_layout.align() != 0 {
                     self.v(4, "misaligned_slot", format!("misaligned_slot/{what}"), format!("{what}: Result slot at rel {} not aligned to MIN_ALIGN {} / its own alignment {}", self.rel(slot), M, slot_layout.align()));
@@ -1106,11 +1146,15 @@ impl<const M: usize> World<M> {
             let envp2 = self.env;
             let b = self.bump.take().unwrap();
             let r2 = arena_op(envp2, self.step, self.arena, &[], || {
-                let x = b.try_alloc_layout(Layout::from_size_align(16, 1).unwrap()).map(|p| p.as_ptr() as usize).ok();
-                let y = b.try_alloc_layout(Layout::from_size_align(kn.min(4096), 1).unwrap()).map(|p| p.as_ptr() as usize).ok();
+                let x = b.try_alloc_slice_fill_copy(16, 0x5Au8).map(|p| p.as_ptr() as usize).ok();
+                let y = b.try_alloc_slice_fill_copy(kn.min(4096), 0x5Au8).map(|p| p.as_ptr() as usize).ok();
                 (x, y)
             });
             self.bump = Some(b);
+            {
+                let (p2, l2) = (self.observe(), (self.e().live_count(self.arena), self.e().live_bytes(self.arena)));
+                let _ = self.generic_post("allocation_after_failed_init", &p2, l2, false);
+            }
             if let Ok((x, y)) = r2 {
                 for (addr, n) in [(x, 16usize), (y, kn.min(4096))] {
                     if let Some(addr) = addr {
@@ -1386,9 +1430,14 @@ impl<const M: usize> World<M> {
             if let (Some((ka, kn)), true) = (kept, self.judge) {
                 let b = self.bump.take().unwrap();
                 let big = size_total.unwrap_or(0).min(4096) + 40;
-                let r3 = arena_op(envp, self.step, self.arena, &[], || b.try_alloc_layout(Layout::from_size_align(big, 1).unwrap()).map(|p| p.as_ptr() as usize).ok());
+                let r3 = arena_op(envp, self.step, self.arena, &[], || b.try_alloc_slice_fill_copy(big, 0x5Au8).map(|p| p.as_ptr() as usize).ok());
                 self.bump = Some(b);
                 if let Ok(Some(addr)) = r3 {
+                    {
+                        // the later slice was initialised by the arena: every live block (the kept one included) must still read back
+                        let (p2, l2) = (self.observe(), (self.e().live_count(self.arena), self.e().live_bytes(self.arena)));
+                        let _ = self.generic_post("allocation_after_failed_init", &p2, l2, false);
+                    }
                     if addr < ka + kn && ka < addr + big {
                         self.v(11, "kept_block_overwritten_later", format!("kept_block_overwritten_later/{what}"), format!("{what}: the initialiser allocated and kept [rel {},+{kn}) and a later element failed; a following request of {big} bytes was placed at rel {}, on top of it", self.rel(ka), self.rel(addr)));
                         self.v(1, "overlaps_live_block", format!("overlaps_live_block/after_{what}"), format!("{what}: a block kept by the failed initialiser was handed out again"));
